@@ -162,7 +162,7 @@ func runOne(t *testing.T, prop, tier string, sc Scenario, st *simrt.Stream, log 
 		res.Infra = "harness deadlock: main task never finished; stuck: " + strings.Join(sim.Stuck, ", ")
 	}
 	if sim.LazyKeys > 0 {
-		res.Infra = fmt.Sprintf("%d pointer map keys were first seen while sorting (nondeterministic iteration order)", sim.LazyKeys)
+		res.Infra = fmt.Sprintf("%d pointer map keys were first seen while sorting (nondeterministic iteration order): %v", sim.LazyKeys, sim.LazyWhere)
 	}
 	return res
 }
